@@ -2,7 +2,7 @@
    Ghost state: L = the data blocks of the file in order, E = its extension blocks in order.  No device faults here
    (bad = fun _ => false); the allocator hands out blocks the file does not own yet, or refuses. *)
 From Coq Require Import ZArith List Bool Lia Permutation.
-From ADF Require Import CPrelude Proofs.BytesP Model.FileIO Proofs.FileIOL.
+From ADF Require Import CPrelude Proofs.BytesP Model.FileIO Proofs.FileIOL Proofs.FileIOFr.
 Import ListNotations.
 Local Open Scope Z_scope.
 
@@ -145,6 +145,16 @@ Section Inv.
     destruct E; [reflexivity|unfold len in HE; simpl in HE; lia].
   Qed.
 
+  (* the three blocks a flush may write belong to the file (Proofs/FileIOFr.v) *)
+  Lemma inv_own s L E : Inv s L E -> Own (key :: L ++ E) s.
+  Proof.
+    intros (B & HL & C). split; [|split].
+    - destruct (b_hdr _ _ _ B) as (Hk & _). rewrite Hk. left; reflexivity.
+    - destruct C as [(_ & Hz & _)|(Hcu & Hnn & _)]; [left; exact Hz|]. right. right. apply in_or_app. left. rewrite Hcu. apply in_L_nth. lia.
+    - intros x Hx. pose proof (b_cext _ _ _ B) as Hb. rewrite Hx in Hb. destruct Hb as [Hz|(j & Hj & ->)]; [left; exact Hz|].
+      right. right. apply in_or_app. right. rewrite enc_key. apply in_E_nth. exact Hj.
+  Qed.
+
   (* ---- adfFileFlush ---- *)
   Definition flush_data (s : hstate) : dblk :=
     if ofs then set_d_size (cdata s) (Z.min (fsize s - (pos s - pind s)) bs) else cdata s.
@@ -283,6 +293,18 @@ Section Inv.
     destruct (chg s) eqn:Hc.
     2:{ split; [exact I|]. split; [exact Hc|]. split; [unfold same_cursor; repeat split; reflexivity|reflexivity]. }
     destruct (flush_inv s L E I Hw) as (H1 & H2 & H3 & H4 & _). splits; assumption.
+  Qed.
+
+  Lemma settle_fr s L E : Inv s L E -> Fr (key :: L ++ E) s (settle s).
+  Proof.
+    intros I. unfold settle. destruct (mw s && chg s); [|apply fr_refl].
+    intros n Hn. cbn [dk set_chg]. apply (flush_fr bs ofs _ s (inv_own s L E I) n Hn).
+  Qed.
+
+  Lemma advance_fr s L E sn : Inv s L E -> read_next bs ofs nobad (settle s) = (true, sn) -> Fr (key :: L ++ E) s (set_chg (set_pind sn 0) false).
+  Proof.
+    intros I Hrn. pose proof (read_next_dk bs ofs nobad (settle s)) as H. rewrite Hrn in H. cbn [snd] in H.
+    intros n Hn. cbn [dk set_chg set_pind]. rewrite H. apply (settle_fr s L E I n Hn).
   Qed.
 
   Lemma idx_in_range n i : 0 <= i < n -> 0 <= i / bs < size2db n bs.
@@ -513,13 +535,13 @@ Section Inv.
   Lemma read_loop_ok L E ct : forall fuel s n, Inv s L E -> Repr s L ct -> cur s <> 0 -> 0 <= n -> pos s + n <= fsize s ->
     (0 < n -> n + (if pind s =? bs then 0 else pind s) <= Z.of_nat fuel * bs) ->
     exists s' r, read_loop bs ofs nobad fuel s n = (s', r) /\ Inv s' L E /\ Repr s' L ct /\ r = sub ct (pos s) n /\ pos s' = pos s + n
-      /\ cur s' <> 0 /\ fh s' = fh s /\ mw s' = mw s /\ mr s' = mr s.
+      /\ cur s' <> 0 /\ fh s' = fh s /\ mw s' = mw s /\ mr s' = mr s /\ Fr (key :: L ++ E) s s'.
   Proof.
     induction fuel as [|fuel IH]; intros s n I R Hc Hn Hle Hfuel.
     - assert (n = 0) by (destruct (Z.eq_dec n 0) as [|Hne]; [assumption|]; specialize (Hfuel ltac:(lia)); destruct (pind s =? bs); destruct I as (_ & _ & [(_ & Hz & _)|(_ & _ & _ & Hpi & _)]); [contradiction|lia|contradiction|lia]).
-      subst n. exists s, []. simpl. splits; try reflexivity; try assumption. lia.
+      subst n. exists s, []. simpl. splits; try reflexivity; try assumption; try apply fr_refl. lia.
     - cbn [read_loop]. destruct (Z.leb_spec n 0) as [Hz|Hz].
-      { assert (n = 0) by lia. subst n. exists s, []. splits; try reflexivity; try assumption. lia. }
+      { assert (n = 0) by lia. subst n. exists s, []. splits; try reflexivity; try assumption; try apply fr_refl. lia. }
       (* the state the bytes are copied from: the next block is fetched when the cursor stands at the end of the buffered one *)
       assert (Hprep : exists s1, (if pind s =? bs
                                   then match read_next bs ofs nobad (settle s) with
@@ -528,12 +550,13 @@ Section Inv.
                                        end
                                   else (true, s)) = (true, s1)
                 /\ Inv s1 L E /\ Repr s1 L ct /\ pos s1 = pos s /\ cur s1 <> 0 /\ pind s1 = (if pind s =? bs then 0 else pind s)
-                /\ fh s1 = fh s /\ mw s1 = mw s /\ mr s1 = mr s).
+                /\ fh s1 = fh s /\ mw s1 = mw s /\ mr s1 = mr s /\ Fr (key :: L ++ E) s s1).
       { destruct (Z.eqb_spec (pind s) bs) as [Hb|Hb].
         - destruct (advance_ok s L E ct I R Hc Hb ltac:(lia)) as (sn & Hrn & I1 & R1 & P1 & C1 & Pi1 & F1 & W1 & M1 & _).
+          pose proof (advance_fr s L E sn I Hrn) as Hfr.
           exists (set_chg (set_pind sn 0) false). rewrite Hrn. splits; try assumption; reflexivity.
-        - exists s. splits; try assumption; reflexivity. }
-      destruct Hprep as (s1 & Hprep & I1 & R1 & P1 & C1 & Pi1 & F1 & W1 & M1). unfold settle in Hprep. rewrite Hprep. cbn [negb].
+        - exists s. splits; try assumption; try apply fr_refl; reflexivity. }
+      destruct Hprep as (s1 & Hprep & I1 & R1 & P1 & C1 & Pi1 & F1 & W1 & M1 & Hfr1). unfold settle in Hprep. rewrite Hprep. cbn [negb].
       set (size := Z.min n (bs - pind s1)).
       assert (Hpi1 : 0 <= pind s1 < bs).
       { rewrite Pi1. destruct (Z.eqb_spec (pind s) bs); [lia|]. destruct I as (_ & _ & [(_ & Hz0 & _)|(_ & _ & _ & Hpi & _)]); [contradiction|lia]. }
@@ -546,11 +569,13 @@ Section Inv.
         - destruct C1' as [(_ & Hz0 & _)|(Hcu & Hnn & Hp & Hpi & Hps & Hlen & Hcl & Hnx & Hxc)]; [contradiction|].
           right. subst s2. unfold fsize, ext_cursor in *. simpl. splits; try assumption; try lia. rewrite F1. unfold fsize in Hle. lia. }
       assert (R2 : Repr s2 L ct) by (apply (repr_frame s1); try reflexivity; assumption).
-      destruct (IH s2 (n - size) I2 R2 C1 ltac:(lia)) as (s3 & r & Hrl & I3 & R3 & Hr & P3 & C3 & F3 & W3 & M3).
+      destruct (IH s2 (n - size) I2 R2 C1 ltac:(lia)) as (s3 & r & Hrl & I3 & R3 & Hr & P3 & C3 & F3 & W3 & M3 & Hfr3).
       { subst s2. unfold fsize in *. simpl. rewrite F1. lia. }
       { intros Hrest. specialize (Hfuel Hz). subst s2. simpl. rewrite Nat2Z.inj_succ in Hfuel. destruct (Z.eqb_spec (pind s1 + size) bs) as [He|He].
         - rewrite Pi1 in *. destruct (Z.eqb_spec (pind s) bs); lia.
         - assert (size = n) by (subst size; lia). lia. }
+      assert (Hfr : Fr (key :: L ++ E) s s3).
+      { apply (fr_trans _ s s1 s3 Hfr1). apply (fr_trans _ s1 s2 s3); [apply fr_dk; reflexivity|exact Hfr3]. }
       fold size. fold s2. rewrite Hrl. exists s3, (sub (d_bytes (cdata s1)) (pind s1) size ++ r). splits; try assumption; try reflexivity.
       + rewrite (chunk_ok s1 L E ct size I1 R1 C1) by (unfold fsize in *; rewrite ?F1; lia). rewrite Hr. subst s2. simpl. rewrite P1.
         assert (Hpos : 0 <= pos s) by (destruct I as (_ & _ & [(_ & Hz0 & _)|(_ & Hnn & Hp & Hpi & _)]); [contradiction|nia]).
@@ -561,34 +586,46 @@ Section Inv.
       + rewrite M3. subst s2. simpl. exact M1.
   Qed.
 
-  Theorem fio_read_ok s L E ct n : Inv s L E -> Repr s L ct -> 0 <= n ->
+  Theorem fio_read_ok_fr s L E ct n : Inv s L E -> Repr s L ct -> 0 <= n ->
     exists s' r, fio_read bs ofs nobad s n = (s', r) /\ Inv s' L E /\ Repr s' L ct /\
       let k := if mr s then Z.max 0 (Z.min n (fsize s - pos s)) else 0 in
-      r = sub ct (pos s) k /\ pos s' = pos s + k /\ fh s' = fh s /\ mw s' = mw s /\ mr s' = mr s.
+      r = sub ct (pos s) k /\ pos s' = pos s + k /\ fh s' = fh s /\ mw s' = mw s /\ mr s' = mr s /\ Fr (key :: L ++ E) s s'.
   Proof.
     intros I R Hn. pose proof I as (B & HL & C). pose proof (b_size _ _ _ B) as Hsz.
     assert (Hps : 0 <= pos s <= fsize s).
     { destruct C as [(Hz & _ & Hp & _)|(_ & Hnn & Hp & Hpi & Hle & _)]; [lia|nia]. }
     unfold fio_read, at_eof.
     destruct (mr s) eqn:Hr; cbn [negb orb].
-    2:{ exists s, []. splits; try assumption; try reflexivity. lia. }
+    2:{ exists s, []. splits; try assumption; try reflexivity; try apply fr_refl. lia. }
     destruct (Z.eqb_spec n 0) as [H0|H0]; cbn [orb].
-    { exists s, []. splits; try assumption; try reflexivity; [|lia]. replace (Z.max 0 (Z.min n (fsize s - pos s))) with 0 by lia. reflexivity. }
+    { exists s, []. splits; try assumption; try reflexivity; try apply fr_refl; [|lia]. replace (Z.max 0 (Z.min n (fsize s - pos s))) with 0 by lia. reflexivity. }
     destruct (Z.eqb_spec (fsize s) 0) as [Hz|Hz]; cbn [orb].
-    { exists s, []. splits; try assumption; try reflexivity; [|lia]. replace (Z.max 0 (Z.min n (fsize s - pos s))) with 0 by lia. reflexivity. }
+    { exists s, []. splits; try assumption; try reflexivity; try apply fr_refl; [|lia]. replace (Z.max 0 (Z.min n (fsize s - pos s))) with 0 by lia. reflexivity. }
     destruct (Z.eqb_spec (pos s) (fsize s)) as [He|He]; cbn [orb].
-    { exists s, []. splits; try assumption; try reflexivity; [|lia]. replace (Z.max 0 (Z.min n (fsize s - pos s))) with 0 by lia. reflexivity. }
+    { exists s, []. splits; try assumption; try reflexivity; try apply fr_refl; [|lia]. replace (Z.max 0 (Z.min n (fsize s - pos s))) with 0 by lia. reflexivity. }
     destruct (Z.eqb_spec (cur s) 0) as [Hc|Hc].
     { exfalso. destruct C as [(Hz' & _)|(Hcu & Hnn & _)]; [contradiction|]. pose proof (cur_nonzero s L E I ltac:(lia) Hcu ltac:(lia)). lia. }
     set (n' := if fsize s <? pos s + n then fsize s - pos s else n).
     assert (Hn' : n' = Z.max 0 (Z.min n (fsize s - pos s)) /\ 0 < n') by (subst n'; destruct (Z.ltb_spec (fsize s) (pos s + n)); lia).
     destruct Hn' as (Hk & Hpos').
-    destruct (read_loop_ok L E ct (Z.to_nat (n' / bs + 2)) s n' I R Hc ltac:(lia) ltac:(lia)) as (s' & r & Hrl & I' & R' & Hrr & P' & _ & F' & W' & M').
+    destruct (read_loop_ok L E ct (Z.to_nat (n' / bs + 2)) s n' I R Hc ltac:(lia) ltac:(lia)) as (s' & r & Hrl & I' & R' & Hrr & P' & _ & F' & W' & M' & Hfr').
     { intros _. assert (Hpi : 0 <= pind s <= bs) by (destruct C as [(Hz' & _)|(_ & _ & _ & Hpi & _)]; [contradiction|assumption]).
       pose proof (Z.div_mod n' bs ltac:(lia)). pose proof (Z.mod_pos_bound n' bs Hbs). pose proof (Z.div_pos n' bs ltac:(lia) Hbs).
       rewrite Z2Nat.id by lia. destruct (Z.eqb_spec (pind s) bs); nia. }
     exists s', r. rewrite <- Hk. splits; try assumption. congruence.
   Qed.
+
+  Theorem fio_read_ok s L E ct n : Inv s L E -> Repr s L ct -> 0 <= n ->
+    exists s' r, fio_read bs ofs nobad s n = (s', r) /\ Inv s' L E /\ Repr s' L ct /\
+      let k := if mr s then Z.max 0 (Z.min n (fsize s - pos s)) else 0 in
+      r = sub ct (pos s) k /\ pos s' = pos s + k /\ fh s' = fh s /\ mw s' = mw s /\ mr s' = mr s.
+  Proof.
+    intros I R Hn. destruct (fio_read_ok_fr s L E ct n I R Hn) as (s' & r & H1 & H2 & H3 & H4).
+    exists s', r. split; [exact H1|split; [exact H2|split; [exact H3|]]]. cbv zeta in *. destruct H4 as (H4 & H5 & H6 & H7 & H8 & _). splits; assumption.
+  Qed.
+
+  Theorem fio_seek_frame s L E p : Inv s L E -> Fr (key :: L ++ E) s (snd (fio_seek bs ofs nobad s p)).
+  Proof. intros I. apply fio_seek_fr, (inv_own s L E I). Qed.
 
   (* a clean state: nothing buffered that the volume does not hold *)
   Definition CB (s : hstate) (L E : list Z) : Prop := Base s L E /\ len L = size2db (fsize s) bs /\ chg s = false.
@@ -1348,6 +1385,26 @@ Section Inv.
         fresh L E n /\ (nx = true -> fresh L E x /\ x <> y) /\ al_ok (L ++ [n]) (if nx then E ++ [x] else E) r
     end.
 
+  (* the blocks the allocator named, and how the block lists of a file may grow: they keep what they had and gain only such blocks *)
+  Definition al_blocks (al : list (option (Z * Z))) : list Z :=
+    flat_map (fun a => match a with Some (x, y) => [x; y] | None => [] end) al.
+  Definition Grows (L E L' E' : list Z) (al al' : list (option (Z * Z))) : Prop :=
+    incl (L ++ E) (L' ++ E') /\ (forall b, In b (L' ++ E') -> In b (L ++ E) \/ In b (al_blocks al)) /\ incl (al_blocks al') (al_blocks al).
+  Lemma grows_refl L E al : Grows L E L E al al.
+  Proof. split; [apply incl_refl|split; [intros b Hb; left; exact Hb|apply incl_refl]]. Qed.
+  Lemma al_blocks_tl al b : In b (al_blocks (tl al)) -> In b (al_blocks al).
+  Proof. destruct al as [|a r]; [intros H; exact H|]. intros H. unfold al_blocks. cbn [flat_map]. apply in_or_app. right. exact H. Qed.
+  Lemma grows_tl L E al : Grows L E L E al (tl al).
+  Proof. split; [apply incl_refl|split; [intros b Hb; left; exact Hb|intros b; apply al_blocks_tl]]. Qed.
+  Lemma grows_trans L E L1 E1 L2 E2 al al1 al2 : Grows L E L1 E1 al al1 -> Grows L1 E1 L2 E2 al1 al2 -> Grows L E L2 E2 al al2.
+  Proof.
+    intros (Hi1 & Hn1 & Ha1) (Hi2 & Hn2 & Ha2). split; [intros b Hb; apply Hi2, Hi1, Hb|split].
+    - intros b Hb. destruct (Hn2 b Hb) as [H|H]; [apply Hn1, H|]. right. apply Ha1, H.
+    - intros b Hb. apply Ha1, Ha2, Hb.
+  Qed.
+  Lemma incl_key (A B : list Z) : incl A B -> incl (key :: A) (key :: B).
+  Proof. intros H b [Hb|Hb]; [left; exact Hb|right; apply H, Hb]. Qed.
+
   Lemma pind_mod s L E : Inv s L E -> cur s <> 0 -> pos s mod bs = (if pind s =? bs then 0 else pind s).
   Proof.
     intros I Hc. destruct (normal_facts s L E I Hc) as (_ & _ & Hp & Hpi & _). rewrite Hp.
@@ -1359,11 +1416,12 @@ Section Inv.
   Lemma repr_nothing s L ct data : 0 <= pos s <= fsize s -> Repr s L ct -> Repr s L (ovw ct (pos s) (firstn (Z.to_nat 0) data)).
   Proof. intros Hp R. change (firstn (Z.to_nat 0) data) with (@nil Z). rewrite ovw_nil; [exact R|]. destruct R as (Hl & _). lia. Qed.
 
-  Lemma write_loop_ok : forall fuel s data al L E ct, Inv s L E -> Repr s L ct -> mw s = true -> al_ok L E al ->
+  Lemma write_loop_ok_fr : forall fuel s data al L E ct, Inv s L E -> Repr s L ct -> mw s = true -> al_ok L E al ->
     (0 < len data -> len data + pos s mod bs <= Z.of_nat fuel * bs) ->
     exists s' w al' L' E', write_loop bs ofs nobad fuel s data al = (s', w, al') /\ Inv s' L' E'
       /\ Repr s' L' (ovw ct (pos s) (firstn (Z.to_nat w) data)) /\ pos s' = pos s + w /\ 0 <= w <= len data /\ mw s' = true /\ mr s' = mr s
-      /\ (w = len data -> al_ok L' E' al') /\ (w < len data -> exists r, al = r ++ None :: al' \/ (al' = [] /\ True)).
+      /\ (w = len data -> al_ok L' E' al') /\ (w < len data -> exists r, al = r ++ None :: al' \/ (al' = [] /\ True))
+      /\ Fr (key :: L' ++ E') s s' /\ Grows L E L' E' al al'.
   Proof.
     induction fuel as [|fuel IH]; intros s data al L E ct I R Hw Hal Hfuel.
     - assert (Hd0 : len data = 0).
@@ -1371,11 +1429,11 @@ Section Inv.
         pose proof (Z.mod_pos_bound (pos s) bs Hbs). simpl in Hfuel. lia. }
       exists s, 0, al, L, E. cbn [write_loop]. assert (data = []) as -> by (destruct data; [reflexivity|unfold len in Hd0; simpl in Hd0; lia]).
       pose proof I as (B & HL & C). assert (Hps : 0 <= pos s <= fsize s) by (destruct C as [(Hz & _ & Hp & _)|(_ & Hnn & Hp & Hpi & Hle & _)]; [lia|nia]).
-      splits; try reflexivity; try assumption; try lia; try (apply repr_nothing; assumption); try (unfold len; simpl; lia); try (intros _; exact Hal).
+      splits; try reflexivity; try assumption; try lia; try (apply repr_nothing; assumption); try (unfold len; simpl; lia); try (intros _; exact Hal); try apply fr_refl; try apply grows_refl.
     - destruct data as [|b0 data0] eqn:Hdata.
       { exists s, 0, al, L, E. cbn [write_loop]. pose proof I as (B & HL & C).
         assert (Hps : 0 <= pos s <= fsize s) by (destruct C as [(Hz & _ & Hp & _)|(_ & Hnn & Hp & Hpi & Hle & _)]; [lia|nia]).
-        splits; try reflexivity; try assumption; try lia; try (apply repr_nothing; assumption); try (unfold len; simpl; lia); try (intros _; exact Hal). }
+        splits; try reflexivity; try assumption; try lia; try (apply repr_nothing; assumption); try (unfold len; simpl; lia); try (intros _; exact Hal); try apply fr_refl; try apply grows_refl. }
       rewrite <- Hdata in *. assert (Hdpos : 0 < len data) by (rewrite Hdata; unfold len; simpl; lia).
       specialize (Hfuel Hdpos). rewrite Nat2Z.inj_succ in Hfuel.
       pose proof I as (B & HL & C). pose proof (b_size _ _ _ B) as Hsz0.
@@ -1406,7 +1464,8 @@ Section Inv.
           /\ pos s1 = pos s /\ pos s1 = (ndb s1 - 1) * bs + pind s1 /\ pind s1 = pos s mod bs /\ pos s1 <= fsize s1 /\ fsize s1 = fsize s
           /\ len (d_bytes (cdata s1)) = bs /\ ext_cursor s1 L1 E1 (ndb s1 - 1) /\ (ofs = true -> ndb s1 < len L1 -> d_next (cdata s1) = nthZ L1 (ndb s1))
           /\ (forall c, 0 < c -> pos s mod bs + c <= bs -> len L1 = size2db (Z.max (fsize s) (pos s + c)) bs)
-          /\ (forall i, 0 <= i < fsize s -> nthZ ct i = byte_at s1 L1 i) /\ al_ok L1 E1 al1 /\ (al1 = al \/ al1 = tl al))).
+          /\ (forall i, 0 <= i < fsize s -> nthZ ct i = byte_at s1 L1 i) /\ al_ok L1 E1 al1 /\ (al1 = al \/ al1 = tl al)
+          /\ Fr (key :: L1 ++ E1) s s1 /\ Grows L E L1 E1 al al1)).
       { destruct (Z.eqb_spec (pos s mod bs) 0) as [Hm0|Hm0].
         - destruct (Z.eqb_spec (pos s) (fsize s)) as [Heof|Hneof].
           + (* at the end of the file on a block boundary: a new block *)
@@ -1416,6 +1475,28 @@ Section Inv.
               destruct (create_next_ok s L E ct x y _ _ _ I R Hw Heof Hm0 eq_refl eq_refl eq_refl Hfn Hfx)
                 as (sc & Hcn & Bsc & Rsc & Lsc & Ccur & Cndb & Cpos & Csz & Cmw & Cmr & Cxc).
               set (n := if needs_x (len L) then y else x) in *. set (L1 := L ++ [n]) in *. set (E1 := if needs_x (len L) then E ++ [x] else E) in *.
+              assert (HGr : Grows L E L1 E1 (Some (x, y) :: al0) al0).
+              { subst L1 E1 n. split; [|split; [|intros b Hb; apply (al_blocks_tl (Some (x, y) :: al0)); exact Hb]].
+                - intros b Hb. apply in_app_or in Hb. apply in_or_app. destruct Hb as [Hb|Hb]; [left; apply in_or_app; left; exact Hb|right].
+                  destruct (needs_x (len L)); [apply in_or_app; left; exact Hb|exact Hb].
+                - intros b Hb. unfold al_blocks. cbn [flat_map app In].
+                  apply in_app_or in Hb. destruct Hb as [Hb|Hb].
+                  + apply in_app_or in Hb. destruct Hb as [Hb|[Hb|[]]]; [left; apply in_or_app; left; exact Hb|right].
+                    destruct (needs_x (len L)); [right; left; exact Hb|left; exact Hb].
+                  + destruct (needs_x (len L)); [|left; apply in_or_app; right; exact Hb].
+                    apply in_app_or in Hb. destruct Hb as [Hb|[Hb|[]]]; [left; apply in_or_app; right; exact Hb|right; left; exact Hb]. }
+              assert (HFr : Fr (key :: L1 ++ E1) s (set_pind (set_chg sc false) 0)).
+              { intros b Hb. cbn [dk set_pind set_chg].
+                assert (Hb0 : ~ In b (key :: L ++ E)) by (intros Hc; apply Hb; apply (incl_key _ _ (proj1 HGr)); exact Hc).
+                pose proof (create_next_dk bs ofs s (Some (x, y)) b) as Hd. rewrite Hcn in Hd. cbn [snd] in Hd. apply Hd.
+                - intros Hge Hbc. subst b. destruct (inv_own s L E I) as (_ & [Hz|Hin] & _); [|contradiction].
+                  destruct I as (_ & _ & [(Hz0 & _ & Hp0 & _)|(Hcu & Hnn & _)]); [lia|].
+                  pose proof (cur_nonzero s L E (conj B (conj HL C)) ltac:(lia) Hcu ltac:(lia)). lia.
+                - intros Hge Hmod Hbx. subst b.
+                  destruct C as [(_ & _ & _ & Hnz & _)|(_ & Hnn & _ & _ & _ & _ & _ & _ & Hxc)]; [unfold MAXDB in Hge; lia|].
+                  destruct (Hxc ltac:(unfold MAXDB in Hge; lia)) as (Hce & _). unfold cx in Hb0. rewrite Hce in Hb0. rewrite enc_key in Hb0.
+                  apply Hb0. right. apply in_or_app. right. apply in_E_nth. pose proof (lenE_of s L E B) as HlE.
+                  unfold MAXDB in Hge. destruct (Z.ltb_spec (len L) 1); lia. }
               rewrite Hcn. exists (set_pind (set_chg sc false) 0), al0, L1, E1.
               destruct (at_eof_boundary s L E I Heof Hm0) as (Hn0 & Hszb & _).
               assert (HlL1 : len L1 = len L + 1) by (subst L1; rewrite len_app; unfold len at 2; simpl; lia).
@@ -1437,6 +1518,7 @@ Section Inv.
             * (* the next block is fetched *)
               destruct (advance_ok s L E ct I R Hcz Hb Hlt) as (sn & Hrn & I1 & R1 & P1 & C1 & Pi1 & F1 & W1 & M1 & Cn).
               assert (Hset : (if chg s then set_chg (fio_flush bs ofs s) false else s) = settle s) by (unfold settle; rewrite Hw; reflexivity).
+              pose proof (advance_fr s L E sn I Hrn) as HFr. pose proof (grows_refl L E al) as HGr.
               rewrite Hset, Hrn. exists (set_pind sn 0), al, L, E.
               assert (Heq : set_pind sn 0 = set_chg (set_pind sn 0) false) by (apply state_ext; try reflexivity; cbn; exact Cn).
               rewrite Heq. set (s1 := set_chg (set_pind sn 0) false) in *.
@@ -1452,7 +1534,7 @@ Section Inv.
             * (* the buffered block starts here *)
               assert (Hp0 : pind s = 0) by (destruct (pind s =? bs); lia).
               assert (Heq : set_pind s 0 = s) by (apply state_ext; try reflexivity; cbn; congruence).
-              rewrite Heq. exists s, al, L, E.
+              rewrite Heq. exists s, al, L, E. pose proof (fr_refl (key :: L ++ E) s) as HFr. pose proof (grows_refl L E al) as HGr.
               destruct C as [(_ & Hz1 & _)|(_ & _ & _ & _ & _ & Hlen1 & _ & Hnx1 & Hxc1)]; [contradiction|].
               splits; try reflexivity; try assumption; try lia.
               -- apply base_dirty; assumption.
@@ -1461,7 +1543,7 @@ Section Inv.
               -- destruct R as (_ & Hr). exact Hr.
               -- left. reflexivity.
         - (* inside a block *)
-          right. exists s, al, L, E.
+          right. exists s, al, L, E. pose proof (fr_refl (key :: L ++ E) s) as HFr. pose proof (grows_refl L E al) as HGr.
           assert (Hcz : cur s <> 0) by (destruct C as [(Hz & _ & Hp0 & _)|(Hcu & Hnn & _)]; [rewrite Hp0, Z.mod_0_l in Hm0 by lia; contradiction|]; pose proof (cur_nonzero s L E I ltac:(lia) Hcu ltac:(lia)); lia).
           destruct (normal_facts s L E I Hcz) as (Hcu & Hnn & Hpp & Hpi & Hle).
           pose proof (pind_mod s L E I Hcz) as Hpm. destruct (Z.eqb_spec (pind s) bs) as [Hb|Hb]; [contradiction|].
@@ -1474,10 +1556,10 @@ Section Inv.
           -- destruct R as (_ & Hr). exact Hr.
           -- left. reflexivity. }
       cbn [write_loop]. rewrite Hdata. rewrite <- Hdata.
-      destruct Hprep as [(al1 & Hpr & Hal1 & Hwhy)|(s1 & al1 & L1 & E1 & Hpr & B1 & W1 & M1 & Hcu1 & Hn1 & P1 & Hpp1 & Hpi1 & Hle1 & Hf1 & Hlen1 & Hxc1 & Hnx1 & HL1 & Hr1 & Hal1 & Hwhy)].
+      destruct Hprep as [(al1 & Hpr & Hal1 & Hwhy)|(s1 & al1 & L1 & E1 & Hpr & B1 & W1 & M1 & Hcu1 & Hn1 & P1 & Hpp1 & Hpi1 & Hle1 & Hf1 & Hlen1 & Hxc1 & Hnx1 & HL1 & Hr1 & Hal1 & Hwhy & HFr1 & HGr1)].
       + (* refused: nothing was written, the state is unchanged *)
         rewrite Hpr. cbn [negb]. exists s, 0, al1, L, E.
-        splits; try reflexivity; try assumption; try lia.
+        splits; try reflexivity; try assumption; try lia; try apply fr_refl; try (subst al1; apply grows_tl).
         * apply repr_nothing; assumption.
         * intros _. subst al1. destruct Hwhy as [->|(r & ->)]; [exists []; right; split; [reflexivity|trivial]|exists []; left; reflexivity].
       + rewrite Hpr. cbn [negb].
@@ -1494,12 +1576,16 @@ Section Inv.
         assert (Hs2eq : set_fh (set_chg (set_pind (set_pos (set_cdata s1 (set_d_bytes (cdata s1) (ovw (d_bytes (cdata s1)) (pind s1) chunk))) (pos s1 + c)) (pind s1 + c)) true)
                           (set_h_size (fh s1) (Z.max (fsize s1) (pos s1 + c))) = s2) by (subst s2; unfold copy_step; rewrite Hlch; reflexivity).
         fold c. fold chunk. rewrite Hs2eq.
-        destruct (IH s2 (skipn (Z.to_nat c) data) al1 L1 E1 (ovw ct (pos s1) chunk) I2 R2 ltac:(congruence) Hal1) as (s3 & w & al3 & L3 & E3 & Hwl & I3 & R3 & P3 & Hw3 & W3 & M3 & Hal3 & Hwhy3).
+        destruct (IH s2 (skipn (Z.to_nat c) data) al1 L1 E1 (ovw ct (pos s1) chunk) I2 R2 ltac:(congruence) Hal1) as (s3 & w & al3 & L3 & E3 & Hwl & I3 & R3 & P3 & Hw3 & W3 & M3 & Hal3 & Hwhy3 & HFr3 & HGr3).
         { intros Hrest. assert (Hlr : len (skipn (Z.to_nat c) data) = len data - c) by (unfold len; rewrite skipn_length; unfold len in Hc; lia).
           rewrite Hlr in *. assert (Hcfull : c = bs - pind s1) by (subst c; unfold len in *; lia).
           rewrite P2, Hlch, P1. assert (Hmod0 : (pos s + c) mod bs = 0).
           { rewrite P1 in Hpp1. rewrite Hpp1, Hcfull. replace ((ndb s1 - 1) * bs + pind s1 + (bs - pind s1)) with (ndb s1 * bs + 0) by lia. apply mod_block. lia. }
           rewrite Hmod0. rewrite Hpi1 in Hcfull. lia. }
+        assert (HGr : Grows L E L3 E3 al al3) by (apply (grows_trans L E L1 E1 L3 E3 al al1 al3 HGr1 HGr3)).
+        assert (HFr : Fr (key :: L3 ++ E3) s s3).
+        { apply (fr_trans2 (key :: L1 ++ E1) _ s s1 s3 (incl_key _ _ (proj1 HGr3)) HFr1).
+          apply (fr_trans _ s1 s2 s3); [apply fr_dk; reflexivity|exact HFr3]. }
         rewrite Hwl. exists s3, (c + w), al3, L3, E3.
         assert (Hlr : len (skipn (Z.to_nat c) data) = len data - c) by (unfold len; rewrite skipn_length; unfold len in Hc; lia).
         splits; try reflexivity; try assumption; try lia.
@@ -1512,6 +1598,29 @@ Section Inv.
         * intros Hshort. destruct (Hwhy3 ltac:(lia)) as (r & [Hx|(Hx & _)]).
           -- destruct Hwhy as [->| ->]; [exists r; left; exact Hx|]. destruct al as [|a al0]; [cbn in Hx; destruct r; discriminate|]. exists (a :: r). left. cbn in Hx. rewrite Hx. reflexivity.
           -- exists []. right. split; [exact Hx|trivial].
+  Qed.
+
+  Lemma write_loop_ok : forall fuel s data al L E ct, Inv s L E -> Repr s L ct -> mw s = true -> al_ok L E al ->
+    (0 < len data -> len data + pos s mod bs <= Z.of_nat fuel * bs) ->
+    exists s' w al' L' E', write_loop bs ofs nobad fuel s data al = (s', w, al') /\ Inv s' L' E'
+      /\ Repr s' L' (ovw ct (pos s) (firstn (Z.to_nat w) data)) /\ pos s' = pos s + w /\ 0 <= w <= len data /\ mw s' = true /\ mr s' = mr s
+      /\ (w = len data -> al_ok L' E' al') /\ (w < len data -> exists r, al = r ++ None :: al' \/ (al' = [] /\ True)).
+  Proof.
+    intros fuel s data al L E ct I R Hw Hal Hf.
+    destruct (write_loop_ok_fr fuel s data al L E ct I R Hw Hal Hf) as (s' & w & al' & L' & E' & H1 & H2 & H3 & H4 & H5 & H6 & H7 & H8 & H9 & _).
+    exists s', w, al', L', E'. splits; try assumption; lia.
+  Qed.
+
+  Theorem fio_write_ok_fr s L E ct data al : Inv s L E -> Repr s L ct -> mw s = true -> al_ok L E al ->
+    exists s' w al' L' E', fio_write bs ofs nobad s data al = (s', w, al') /\ Inv s' L' E'
+      /\ Repr s' L' (ovw ct (pos s) (firstn (Z.to_nat w) data)) /\ pos s' = pos s + w /\ 0 <= w <= len data /\ mw s' = true /\ mr s' = mr s
+      /\ (w = len data -> al_ok L' E' al') /\ (w < len data -> exists r, al = r ++ None :: al' \/ (al' = [] /\ True))
+      /\ Fr (key :: L' ++ E') s s' /\ Grows L E L' E' al al'.
+  Proof.
+    intros I R Hw Hal. unfold fio_write. rewrite Hw. cbn [negb].
+    apply (write_loop_ok_fr _ s data al L E ct I R Hw Hal).
+    intros Hd. fold (len data). pose proof (Z.mod_pos_bound (pos s) bs Hbs). pose proof (Z.div_mod (len data) bs ltac:(lia)).
+    pose proof (Z.mod_pos_bound (len data) bs Hbs). pose proof (Z.div_pos (len data) bs ltac:(lia) Hbs). rewrite Z2Nat.id by lia. nia.
   Qed.
 
   Theorem fio_write_ok s L E ct data al : Inv s L E -> Repr s L ct -> mw s = true -> al_ok L E al ->
@@ -1575,16 +1684,17 @@ Section Inv.
   Qed.
 
   (* ---- adfFileTruncate: same size (a seek) and growing (adfFileWriteFilled with zeros); shrinking is tied by the correspondence only ---- *)
-  Lemma write_filled_ok : forall fuel s size al L E ct, Inv s L E -> Repr s L ct -> mw s = true -> pos s = fsize s -> al_ok L E al -> 0 <= size ->
+  Lemma write_filled_ok_fr : forall fuel s size al L E ct, Inv s L E -> Repr s L ct -> mw s = true -> pos s = fsize s -> al_ok L E al -> 0 <= size ->
     exists s' w al' L' E', write_filled bs ofs nobad fuel s size al = (s', w, al') /\ Inv s' L' E' /\ Repr s' L' (ct ++ zerosZ w) /\ 0 <= w <= size
-      /\ pos s' = fsize s' /\ fsize s' = fsize s + w /\ mw s' = true /\ mr s' = mr s.
+      /\ pos s' = fsize s' /\ fsize s' = fsize s + w /\ mw s' = true /\ mr s' = mr s
+      /\ Fr (key :: L' ++ E') s s' /\ Grows L E L' E' al al'.
   Proof.
     induction fuel as [|fuel IH]; intros s size al L E ct I R Hw Hp Hal Hsz.
-    - exists s, 0, al, L, E. cbn [write_filled]. change (zerosZ 0) with (@nil Z). rewrite app_nil_r. splits; try reflexivity; try assumption; try lia.
+    - exists s, 0, al, L, E. cbn [write_filled]. change (zerosZ 0) with (@nil Z). rewrite app_nil_r. splits; try reflexivity; try assumption; try lia; try apply fr_refl; try apply grows_refl.
     - cbn [write_filled]. destruct (Z.leb_spec size 0).
-      { exists s, 0, al, L, E. change (zerosZ 0) with (@nil Z). rewrite app_nil_r. splits; try reflexivity; try assumption; try lia. }
+      { exists s, 0, al, L, E. change (zerosZ 0) with (@nil Z). rewrite app_nil_r. splits; try reflexivity; try assumption; try lia; try apply fr_refl; try apply grows_refl. }
       set (cl := Z.min size 4096).
-      destruct (fio_write_ok s L E ct (zerosZ cl) al I R Hw Hal) as (s1 & w & al1 & L1 & E1 & Hfw & I1 & R1 & P1 & Hw1 & W1 & M1 & Hal1 & _).
+      destruct (fio_write_ok_fr s L E ct (zerosZ cl) al I R Hw Hal) as (s1 & w & al1 & L1 & E1 & Hfw & I1 & R1 & P1 & Hw1 & W1 & M1 & Hal1 & Hwhy1 & HFr1 & HGr1).
       rewrite Hfw. rewrite len_zerosZ in Hw1 by (subst cl; lia).
       assert (Hlct : len ct = fsize s) by (destruct R as (Hl & _); exact Hl).
       assert (Hct1 : ovw ct (pos s) (firstn (Z.to_nat w) (zerosZ cl)) = ct ++ zerosZ w).
@@ -1594,10 +1704,21 @@ Section Inv.
       { destruct R1 as (Hl1 & _). rewrite len_app, len_zerosZ in Hl1 by lia. lia. }
       destruct (Z.eqb_spec w cl) as [Hfull|Hshort]; cbn [negb].
       + destruct (IH s1 (size - cl) al1 L1 E1 (ct ++ zerosZ w) I1 R1 W1 ltac:(lia) (Hal1 ltac:(rewrite len_zerosZ by (subst cl; lia); exact Hfull)) ltac:(subst cl; lia))
-          as (s2 & w2 & al2 & L2 & E2 & Hwf & I2 & R2 & Hw2 & P2 & F2 & W2 & M2).
+          as (s2 & w2 & al2 & L2 & E2 & Hwf & I2 & R2 & Hw2 & P2 & F2 & W2 & M2 & HFr2 & HGr2).
+        assert (HGr : Grows L E L2 E2 al al2) by (apply (grows_trans L E L1 E1 L2 E2 al al1 al2 HGr1 HGr2)).
+        assert (HFr : Fr (key :: L2 ++ E2) s s2) by (apply (fr_trans2 (key :: L1 ++ E1) _ s s1 s2 (incl_key _ _ (proj1 HGr2)) HFr1 HFr2)).
         rewrite Hwf. exists s2, (w + w2), al2, L2, E2. rewrite <- app_assoc, zerosZ_app in R2 by lia.
         splits; try reflexivity; try assumption; try lia; try congruence.
       + exists s1, w, al1, L1, E1. splits; try reflexivity; try assumption; try lia.
+  Qed.
+
+  Lemma write_filled_ok : forall fuel s size al L E ct, Inv s L E -> Repr s L ct -> mw s = true -> pos s = fsize s -> al_ok L E al -> 0 <= size ->
+    exists s' w al' L' E', write_filled bs ofs nobad fuel s size al = (s', w, al') /\ Inv s' L' E' /\ Repr s' L' (ct ++ zerosZ w) /\ 0 <= w <= size
+      /\ pos s' = fsize s' /\ fsize s' = fsize s + w /\ mw s' = true /\ mr s' = mr s.
+  Proof.
+    intros fuel s size al L E ct I R Hw Hp Hal Hsz.
+    destruct (write_filled_ok_fr fuel s size al L E ct I R Hw Hp Hal Hsz) as (s' & w & al' & L' & E' & H1 & H2 & H3 & H4 & H5 & H6 & H7 & H8 & _).
+    exists s', w, al', L', E'. splits; try assumption; lia.
   Qed.
 
   Theorem fio_truncate_same_ok s L E ct al : Inv s L E -> Repr s L ct -> mw s = true ->
@@ -1621,6 +1742,27 @@ Section Inv.
     destruct (write_filled_ok (Z.to_nat ((sizeNew - fsize s) / 4096 + 2)) s1 (sizeNew - fsize s) al L E ct I1 R1 ltac:(congruence) ltac:(rewrite P1, Hf1; lia) Hal ltac:(lia))
       as (s2 & w & al2 & L2 & E2 & Hwf & I2 & R2 & Hw2 & P2 & F2 & W2 & M2).
     rewrite Hwf. exists (w =? sizeNew - fsize s), s2, al2, L2, E2, w. splits; try reflexivity; try assumption; try lia.
+  Qed.
+
+  (* ---- the frame of adfFileTruncate when the file keeps its size or grows (C18) ---- *)
+  Theorem fio_truncate_same_fr s L E al : Inv s L E -> Fr (key :: L ++ E) s (snd (fst (fst (fio_truncate bs ofs nobad s (fsize s) al)))).
+  Proof.
+    intros I. unfold fio_truncate. destruct (mw s); cbn [negb fst snd]; [|apply fr_refl]. rewrite Z.eqb_refl.
+    pose proof (fio_seek_frame s L E (fsize s) I) as H. destruct (fio_seek bs ofs nobad s (fsize s)) as (ok, s1). exact H.
+  Qed.
+
+  Theorem fio_truncate_grow_fr s L E ct al sizeNew : Inv s L E -> Repr s L ct -> mw s = true -> al_ok L E al -> fsize s < sizeNew ->
+    exists ok s' al' L' E', fio_truncate bs ofs nobad s sizeNew al = (ok, s', [], al') /\ Inv s' L' E' /\ Fr (key :: L' ++ E') s s' /\ Grows L E L' E' al al'.
+  Proof.
+    intros I R Hw Hal Hgt. unfold fio_truncate. rewrite Hw. cbn [negb]. destruct (Z.eqb_spec sizeNew (fsize s)); [lia|].
+    destruct (Z.ltb_spec (fsize s) sizeNew); [|lia]. pose proof I as (B & _). pose proof (b_size _ _ _ B) as Hsz.
+    pose proof (fio_seek_frame s L E (fsize s) I) as Hfr0.
+    destruct (fio_seek_ok s L E ct (fsize s) I R Hsz) as (s1 & Hsk & I1 & R1 & P1 & F1 & W1 & M1).
+    rewrite Hsk in *. cbn [negb snd] in *. assert (Hf1 : fsize s1 = fsize s) by (unfold fsize; rewrite F1; reflexivity).
+    destruct (write_filled_ok_fr (Z.to_nat ((sizeNew - fsize s) / 4096 + 2)) s1 (sizeNew - fsize s) al L E ct I1 R1 ltac:(congruence) ltac:(rewrite P1, Hf1; lia) Hal ltac:(lia))
+      as (s2 & w & al2 & L2 & E2 & Hwf & I2 & R2 & Hw2 & P2 & F2 & W2 & M2 & HFr2 & HGr2).
+    rewrite Hwf. exists (w =? sizeNew - fsize s), s2, al2, L2, E2. splits; try reflexivity; try assumption.
+    apply (fr_trans2 (key :: L ++ E) _ s s1 s2 (incl_key _ _ (proj1 HGr2)) Hfr0 HFr2).
   Qed.
 
   (* ---- exhaustion: a refused allocation changes nothing (C08) ---- *)
@@ -2303,5 +2445,26 @@ Section Inv.
     destruct (seek_eof bs ofs nobad (set_fh s1 (set_h_size (fh s1) new))) as [[|] s2]; cbn [negb] in Ht.
     - injection Ht as _ _ <- _. exact Hperm.
     - injection Ht as <- _ _ _. discriminate.
+  Qed.
+  (* ---- the frame of a shrinking adfFileTruncate, of adfFileClose / adfFileFlush and of the creation of a file (C18) ---- *)
+  Theorem fio_truncate_shrink_fr s L E al new : Inv s L E -> mw s = true -> new < fsize s ->
+    Fr (key :: L ++ E) s (snd (fst (fst (fio_truncate bs ofs nobad s new al)))).
+  Proof.
+    intros I Hw Hlt n Hn. rewrite (fio_truncate_shrink_dk bs ofs nobad s new al Hw Hlt). apply (flush_fr bs ofs _ s (inv_own s L E I) n Hn).
+  Qed.
+
+  Theorem fio_flush_fr s L E : Inv s L E -> Fr (key :: L ++ E) s (fio_flush bs ofs s).
+  Proof. intros I. apply flush_fr, (inv_own s L E I). Qed.
+
+  Theorem fio_close_fr s L E : Inv s L E -> forall n, ~ In n (key :: L ++ E) -> fio_close bs ofs s n = dk s n.
+  Proof. intros I n Hn. unfold fio_close. apply (fio_flush_fr s L E I n Hn). Qed.
+
+  Theorem fio_new_fr d r w : forall n, n <> key -> dk (fio_new bs d key r w) n = d n.
+  Proof. intros n Hn. unfold fio_new, init_handle. cbn [dk]. destruct (Z.eqb_spec n key); [contradiction|reflexivity]. Qed.
+
+  (* opening a file changes nothing on the volume *)
+  Theorem fio_open_fr d r w : dk (snd (fio_open bs ofs nobad d key r w)) = d.
+  Proof.
+    unfold fio_open. rewrite fio_seek_quiet; [reflexivity|]. unfold quiet, init_handle. cbn [mw chg]. apply andb_false_r.
   Qed.
 End Inv.
